@@ -33,7 +33,7 @@ def gates(tier):
         "min_decided": {a: 1500 * k for a in APIS},
         "shapes": {c: 3 * k for c in ["nullable_nonstart", "nullable_cycle", "unary_cycle", "recursive", "finite_language",
                                       "prefix:dead", "prefix:live", "sr:Q", "sr:Boolean", "sr:MaxTimes", "sr:Real",
-                                      "oracle-crosscheck", "derivative:tagged"]},
+                                      "oracle-crosscheck", "derivative:tagged", "derivative:resumed-chain"]},
         "min_hashseeds": 2,
     }
 
@@ -139,6 +139,27 @@ def run_case(case, ctx):
             ok, v = ctx.call(APIS[2], c2, D[-1].treesum)
             if ok:
                 judge(APIS[2], v, want[p], c2, "derivatives.treesum")
+    # chains that are resumed from an intermediate derivative grammar, and a derivative of a derivative
+    for p in prefixes:
+        if len(p) < 2 or len(p) > 3:
+            continue
+        c2 = dict(case, p=list(p), resumed=True)
+        ok, D1 = ctx.call(APIS[2], c2, cfg.derivatives, p[:1])
+        if ok:
+            ok, D2 = ctx.call(APIS[2], c2, D1[-1].derivatives, p[1:])
+            if ok:
+                ctx.shape["derivative:resumed-chain"] += 1
+                ok, v = ctx.call(APIS[2], c2, D2[-1].treesum)
+                if ok:
+                    judge(APIS[2], v, want[p], c2, "derivatives(resumed).treesum")
+        if len(p) == 2:
+            ok, DD = ctx.call(APIS[3], c2, lambda: cfg.derivative(p[0]).derivative(p[1]))
+            if ok:
+                for y in prefixes:
+                    if len(y) + 2 <= case["maxlen"]:
+                        ok, v = ctx.call(APIS[3], dict(c2, y=list(y)), DD, y)
+                        if ok:
+                            judge(APIS[3], v, wstr[p + y], dict(c2, y=list(y)), "derivative(derivative)")
     # non-default tags: the derivative with respect to p[m] is tagged with its position m
     for p in prefixes:
         if not (1 <= len(p) <= 3):
